@@ -243,8 +243,18 @@ func runMapProgram(e *mapEnv, nOps, mode, valProf, opProf int) {
 			// multi-slab maps contain external groups that collapse when one member is removed
 			alph = []uint64{150, 1 << 62, 1 << 62, 1 << 62}
 		}
+		// every second program uses the boundary digest values: the smallest bucket of a level hashes
+		// to 0 and the largest to 2^64-1
+		edge := e.rng.Intn(2) == 0
 		e.b = &hx.TableDigesterBuilder{L: e.L, Fn: func(k hx.TV, l uint) uint64 {
-			return mix(k.Pay, uint64(l), salt) % alph[l] * 1000003
+			d := mix(k.Pay, uint64(l), salt) % alph[l]
+			if edge && d == 0 {
+				return 0
+			}
+			if edge && d == alph[l]-1 {
+				return ^uint64(0)
+			}
+			return d * 1000003
 		}}
 	}
 	atree.VerifSetMaxCollisionLimitPerDigest(e.climit)
